@@ -267,6 +267,12 @@ type twirpErr struct{ msg, code string }
 func (e *twirpErr) Error() string { return e.msg }
 func (e *twirpErr) Code() string  { return e.code }
 
+// oddCodeErr has a Code method that takes an argument: it must be ignored by getCode.
+type oddCodeErr struct{ msg string }
+
+func (e *oddCodeErr) Error() string           { return e.msg }
+func (e *oddCodeErr) Code(lang string) string { return "odd:" + lang }
+
 type wrapErr struct{ inner error }
 
 func (e *wrapErr) Error() string { return "wrap" }
@@ -301,7 +307,7 @@ func pickMsg(max int) string {
 // symErr builds an error from a symbolic shape; returns it and whether it is nil.
 func symErr(depth int) error {
 	var err error
-	shape := vrt.Choice("shape", 5)
+	shape := vrt.Choice("shape", 6)
 	switch shape {
 	case 0:
 		err = nil
@@ -314,6 +320,8 @@ func symErr(depth int) error {
 		err = &twirpErr{pickMsg(2), "not_found"}
 	case 4:
 		err = nil // wrapper around nil: Unwrap() returns nil
+	case 5:
+		err = &oddCodeErr{pickMsg(1)}
 	}
 	for i := 0; i < depth; i++ {
 		w := vrt.Choice("wrap", 3)
